@@ -75,6 +75,14 @@ def _rule(ctx, cfg):
             vc.witness_terms["var[%d]" % i] = z3.Select(ev.vars_, i)
         es = ES(period, tol, patience, ev, "quantity", criterion=crit)
         state = GhostState(stop=False)
+        # the run begins (train_start) while the evaluator may already hold any number of records - a second fit, a run
+        # continued with starting_epoch - and the rule looks at the whole record
+        L0 = vc.fresh_int("L_at_train_start", 0)
+        vc.assume(L0 <= L)
+        ev.L = L0
+        es.on_train_start(state)
+        es.on_epoch_start(state, epoch)
+        ev.L = L
         es.on_epoch_end(state, epoch)
         did = len(state.stop_writes) > 0
         p = patience + (0 if canary != "spec-lookback-off-by-one" else 1)
